@@ -1504,3 +1504,11 @@ const EXTRA_FIELD_MAPPING: [u16; 49] = [
     0x5455, 0x554e, 0x5855, 0x6375, 0x6542, 0x7075, 0x756e, 0x7855, 0xa11e, 0xa220, 0xfd4a, 0x9901,
     0x9902,
 ];
+
+// Verification hook (guard: cfg(kani), set only by `cargo kani`); harness code lives outside the repository.
+#[cfg(kani)]
+mod verif_h {
+    #[allow(unused_imports)]
+    use super::*;
+    include!(concat!(env!("ZIP_VERIF_HARNESS_DIR"), "/h_write.rs"));
+}
